@@ -321,7 +321,10 @@ func (s *c21srv) handle(c *scriptsrv.Conn, reqID uint32, r ua.Request) (ua.Respo
 	case *ua.TransferSubscriptionsRequest:
 		res := make([]*ua.TransferResult, s.p("tnres"))
 		for i := range res {
-			res[i] = &ua.TransferResult{AvailableSequenceNumbers: []uint32{}}
+			// AvailableSequenceNumbers relative to the client's next expected number (2 after one notification, else 1):
+			// 0 empty, 1 contains it, 2 all lower, 3 all higher, 4 lower and higher without it
+			avail := [][]uint32{{}, {1, 2, 3}, {1}, {5, 6}, {1, 5}}[s.p("avail")%5]
+			res[i] = &ua.TransferResult{AvailableSequenceNumbers: avail}
 			if s.p("tinvalid")&(1<<i) != 0 {
 				res[i].StatusCode = ua.StatusBadSubscriptionIDInvalid
 			}
@@ -336,6 +339,12 @@ func (s *c21srv) handle(c *scriptsrv.Conn, reqID uint32, r ua.Request) (ua.Respo
 
 	case *ua.PublishRequest:
 		n := int(atomic.AddInt32(&s.pubs, 1))
+		if op == "transfer" && s.p("predata") == 1 && n == 1 {
+			// one data notification for subscription 1 before the connection is dropped: the client expects number 2 next
+			return &ua.PublishResponse{ResponseHeader: hdr(), SubscriptionID: 1, AvailableSequenceNumbers: []uint32{},
+				NotificationMessage: &ua.NotificationMessage{SequenceNumber: 1, PublishTime: time.Now(), NotificationData: []*ua.ExtensionObject{dataChange()}},
+				Results:             []ua.StatusCode{}, DiagnosticInfos: []*ua.DiagnosticInfo{}}, true
+		}
 		if op != "publish" {
 			return nil, true // withheld: the publish loop stays parked in its request
 		}
@@ -446,6 +455,8 @@ func c21Gen(r *rng.R, i int) *Case {
 		c.P["kind"] = kind()
 		c.P["nres"] = r.Intn(4)
 		c.P["stmask"] = r.Pick(0, 0, r.Intn(4))
+		c.P["avail"] = r.Intn(5)
+		c.P["predata"] = r.Intn(2)
 	}
 	return c
 }
@@ -493,6 +504,13 @@ func c21Directed() []*Case {
 		}
 		for ns := 1; ns <= 2; ns++ {
 			add("transfer", map[string]int{"nsubs": ns, "nitems": 1, "tkind": 0, "tnres": nr + ns - 1, "tinvalid": 0, "nres": 1}, nil)
+		}
+	}
+	// a transferred subscription is republished: AvailableSequenceNumbers empty / containing / all lower / all higher /
+	// around the number the client expects next, after no or one received notification
+	for pre := 0; pre <= 1; pre++ {
+		for av := 0; av < 5; av++ {
+			add("transfer", map[string]int{"nsubs": 1, "nitems": 1, "tkind": 0, "tnres": 1, "tinvalid": 0, "nres": 1, "avail": av, "predata": pre}, nil)
 		}
 	}
 	// every helper on an absent value, a null value and an empty array
@@ -862,6 +880,12 @@ func runCase(cs *Case) (res Result) {
 			if err != nil {
 				res.Outcome, res.Err = "setup-error", err.Error()
 				return
+			}
+		}
+		if p("predata") == 1 {
+			select {
+			case <-notifs:
+			case <-time.After(5 * time.Second):
 			}
 		}
 		// drain the state channel, then ask the server to drop the connection
